@@ -91,7 +91,8 @@ def run_cli(root: Path, strategy: Optional[str] = "client", config: Optional[Dic
     if "Generated files:" in out:
         tail = out.split("Generated files:")[1]
         reported = [l.strip() for l in tail.splitlines() if l.strip()]
-    pkg_dir = Path(config.get("target_package_path", str(root))) / config.get("target_package_name", "graphql_client")
+    base_dir = Path(config.get("target_package_path", str(root)))
+    pkg_dir = (base_dir if base_dir.is_absolute() else Path(root) / base_dir) / config.get("target_package_name", "graphql_client")
     return GenResult(ok=(result.exit_code == 0 and exc is None), exit_code=result.exit_code, exception=exc,
                      exc_type=type(exc).__name__ if exc is not None else "", exc_is_codegen=isinstance(exc, CodeGenException),
                      stdout=out, traceback=tb, package_dir=pkg_dir, reported_files=reported, config=config)
